@@ -49,12 +49,21 @@ SumPairs == { <<"icc", "tag_off_desc", "tag_size_desc">>, <<"icc", "tag_off_othe
 PairClasses == { <<a, b>> : a \in { <<"max", 0>>, <<"max", -15>>, <<"half", 0>>, <<"v", 0>> },
                             b \in { <<"wrap_a", 0>>, <<"wrap_a", 1>>, <<"wrap_a", 16>>, <<"max", 0>> } }
 
+\* a count that drives a loop, paired with the size that drives its step: the work
+\* done must follow the input length, not the product of the two declared numbers
+LoopPairs == { <<"icc", "mluc_count", "mluc_recsize">>, <<"icc", "tag_count", "tag_size_desc">>,
+               <<"icc", "mluc_count", "mluc_len">>, <<"jpeg", "icc_total", "icc_seq">> }
+LoopClasses == { <<a, b>> : a \in { <<"max", 0>>, <<"half", -1>>, <<"const", 65535>>, <<"const", 255>> },
+                            b \in { <<"const", 0>>, <<"const", 1>>, <<"const", 11>>, <<"const", 13>>, <<"v", 0>> } }
+
 Structs == DOMAIN Fields
 Cases ==
     UNION { UNION { { [kind |-> "field", struct |-> s, field |-> f, class |-> c, class2 |-> <<"none", 0>>, field2 |-> "none"] :
                       c \in Classes(Fields[s][f]) } : f \in DOMAIN Fields[s] } : s \in Structs } \cup
     { [kind |-> "pair", struct |-> p[1], field |-> p[2], class |-> pc[1], field2 |-> p[3], class2 |-> pc[2]] :
-        p \in SumPairs, pc \in PairClasses }
+        p \in SumPairs, pc \in PairClasses } \cup
+    { [kind |-> "pair", struct |-> p[1], field |-> p[2], class |-> pc[1], field2 |-> p[3], class2 |-> pc[2]] :
+        p \in LoopPairs, pc \in LoopClasses }
 
 (* Budget contract on an observation e = [n, alloc, wall_ms, panic, died].   *)
 Budget(n) == AllocPerByte * n + AllocFixed
